@@ -1,6 +1,6 @@
 (** Properties/C17.v — "Bytes before the header do not change what is read".
     Only statements, each closed by [exact] of a lemma proved in XRef/. *)
-From PdfV Require Import Base.Prelude Gen.Generated XRef.Model XRef.Spec XRef.HeaderProofs XRef.FrontProofs XRef.LexShift XRef.At XRef.ParseShift XRef.PrefixProofs Syn.Prim Syn.Parser.
+From PdfV Require Import Base.Prelude Gen.Generated XRef.Model XRef.Spec XRef.HeaderProofs XRef.FrontProofs XRef.LexShift XRef.At XRef.ParseShift XRef.PrefixProofs XRef.AtProofs Syn.Prim Syn.Parser.
 Set Warnings "-notation-overridden".   (* also ends the import list for the dependency scanner of tools/vplib *)
 
 (** A marker without proper border (no proper suffix is a prefix) cannot straddle the end of a prefix
@@ -140,6 +140,26 @@ Theorem C17_tables_invariant : forall (R : resolver) (tid : dict -> N) allow fla
      = rmap (shift_prim (lenN p)) (resolve_ref prim (obj_at_parse R allow flags) (fun _ _ _ => Err E_OTHER) fuel f 0 t id)).
 Proof. exact tables_prefix_invariant. Qed.
 Print Assumptions C17_tables_invariant.
+
+(** C17 and C02 together, no oracle: a well-formed classic-table file (the premises of C02_resolve_latest) behind
+    any marker-free prefix inside the window opens with the header at |p| and the newest trailer, and every number
+    below /Size resolves to the object the newest mention points to (stream ranges moved by |p|), FreeObject or NullRef. *)
+Theorem C17_resolve_latest_prefixed : forall R tid allow (p file : bytes) (h : history) secss q0 secs0 d0 older size,
+  (forall e, tid (shift_dict (lenN p) e) = tid e) ->
+  find_sub xr_header p = None -> lenN p + lenN xr_header <= xr_header_window -> lenN (p ++ file) < usize_max ->
+  Forall2 represents secss h -> wf_history h ->
+  map snd ((q0, secs0) :: older) = rev secss ->
+  starts_with xr_header file = true -> startxref_at file q0 ->
+  section_at file q0 secs0 d0 -> t_size (tinfo_of tid d0) = Some size -> size <= xr_max_id ->
+  chain_at tid file 0 (t_prev (tinfo_of tid d0)) older -> NoDup (map fst older) ->
+  (forall n g pos, latest h n = Some (Direct g pos) -> exists v, object_at file pos n g v) ->
+  (forall n s i, latest h n <> Some (Compressed s i)) ->
+  exists t, load (xref_at_tables R tid) (p ++ file) = Ok (lenN p, t, tid d0) /\
+    forall n fuel, n < size ->
+      stored_shifted (lenN p) file n (latest h n)
+        (resolve_ref prim (obj_at_parse R allow F_ANY) (fun _ _ _ => Err E_OTHER) (S fuel) (p ++ file) (lenN p) t n).
+Proof. exact resolve_latest_tables_prefixed. Qed.
+Print Assumptions C17_resolve_latest_prefixed.
 
 (** scan before the repair (file.rs:198-201): unshifted range end, lexer offset 0, unwrap. *)
 Theorem C17_scan_refuted_before_fix :
